@@ -8,6 +8,8 @@ from .. import impl
 from .. import drex, solver
 from .. import robust
 
+EXTRA_LEAN_MODULES = ("Properties.C07History",)
+
 PARTIAL = [
     "that LSODA returns a constant solution for an identically zero right-hand side is an integrator fact, validated on the "
     "recorded histories (the theorems give: rates are exactly zero, post-processing is the identity on a valid texture)",
